@@ -27,6 +27,9 @@ type c08Case struct {
 	pos  string
 	mk   func(w *fix.World) pb.Transaction
 	mk2  func(w *fix.World) pb.Transaction // pos "pair": a second malformed transaction in the same block
+	// size > 0: a block of that many valid transactions (every third an IBTP) executed with
+	// proof verification in parallel groups
+	size int
 }
 
 func resign(tx *pb.BxhTransaction, k crypto.PrivateKey) *pb.BxhTransaction {
@@ -74,6 +77,10 @@ func c08Cases() []c08Case {
 		for _, pos := range []string{"first", "last"} {
 			out = append(out, c08Case{name: name, pos: pos, mk: mk})
 		}
+	}
+	// block sizes: the parallel proof verification splits a block into groups
+	for n := 1; n <= 16; n++ {
+		out = append(out, c08Case{name: fmt.Sprintf("parallel-proof/block-of-%d-valid-transactions", n), pos: "size", size: n})
 	}
 	// senders that cannot pay the fee (gas price 50000): a never-funded account and one holding
 	// 1000 units; succeeding and failing transactions of every execution path
@@ -384,7 +391,48 @@ func c08Arg(sm surfaceMethod, i, dom int) *pb.Arg {
 	return pb.String("x")
 }
 
+func c08RunSize(c *mc.Ctx, k c08Case) {
+	w := fix.BaseWorld(fix.Options{ProofType: "parallel"})
+	defer w.R.Close()
+	p1 := icPairs["p1"]
+	var txs []pb.Transaction
+	idx := uint64(0)
+	for i := 0; i < k.size; i++ {
+		if i%3 == 1 {
+			idx++
+			txs = append(txs, fix.IBTPTx(fix.KA, w.N.Next(fix.KA), &pb.IBTP{From: p1.from, To: p1.to, Index: idx}, fix.GoodProof))
+		} else {
+			txs = append(txs, w.TransferTx(fix.KUser2, fix.KUser, "1"))
+		}
+	}
+	name := k.name
+	rep := map[string]interface{}{"engine": "sharded.c08", "desc": name}
+	h0 := w.R.L.GetChainMeta().Height
+	res := w.Block(txs...)
+	c.Add("blocks_executed", 1)
+	if got := w.R.L.GetChainMeta().Height; got != h0+1 {
+		c.Report("C08|height-not-advanced-by-one", fmt.Sprintf("%s: height %d -> %d", name, h0, got), rep)
+	}
+	if len(res.Receipts) != len(txs) {
+		c.Report("C08|receipt-count", fmt.Sprintf("%s: %d receipts for %d txs", name, len(res.Receipts), len(txs)), rep)
+		return
+	}
+	for i, rc := range res.Receipts {
+		if !rc.IsSuccess() {
+			c.Report("C08|valid-neighbour-failed", fmt.Sprintf("%s: the valid transaction at position %d failed: %s", name, i, trunc(string(rc.Ret))), rep)
+		}
+	}
+	nx := w.Block(w.TransferTx(fix.KUser2, fix.KUser, "1"))
+	if len(nx.Receipts) != 1 || !nx.Receipts[0].IsSuccess() {
+		c.Report("C08|node-wedged-after-block", name+": the block after it did not execute normally", rep)
+	}
+}
+
 func c08Run(c *mc.Ctx, k c08Case) {
+	if k.size > 0 {
+		c08RunSize(c, k)
+		return
+	}
 	w := fix.BaseWorld(fix.Options{Audit: true})
 	defer w.R.Close()
 	// one accepted request so that receipts / timeouts have something to act on
